@@ -241,7 +241,7 @@ def run_case(case):
                    "inside": dt * (r.randint(0, nsteps_target) + r.choice([0.0, 0.5]))}[tmax_mode]
         tmax = tmax_si
     # also intervals far below the step (the ratio t/interval then exceeds 2^31: every step crosses a multiple)
-    interval_si = dt * r.choice([0.5, 1.0, 1.7, 3.0, 7.3, 1e-3, 1e-10, 1e-12])
+    interval_si = dt * r.choice([0.5, 1.0, 1.7, 3.0, 7.3, 1e-3, 1e-10, 1e-12, 1e-22, 1e-200])      # down to t/interval far beyond 2^63
     ms = gen.mild_sys(r)
     usys = (ms[0], r.choice(["s", "s", "ms", "min", "ds", "µs"]), "molecule")
     if dyadic:
